@@ -94,3 +94,25 @@ package channel
 //@   modifies writes(c.wc), wrLen(c.wc), wrData(c.wc)
 //@   ensures[C11:one-write] writes(c.wc) == old(writes(c.wc)) + 1
 //@   ensures[C11:bytes] len(msg) != 0 && !(len(msg) == 4 && msg[0] == 'n' && msg[1] == 'u' && msg[2] == 'l' && msg[3] == 'l') ==> wrLen(c.wc) == len(msg) && forall(i int, 0 <= i && i < len(msg) ==> wrData(c.wc)[i] == msg[i])
+
+// ---------------------------------------------------------------------------
+// The Channel interface as USED by Server and Client (C10)
+// ---------------------------------------------------------------------------
+
+// Ghost event counters per channel value: chSends / chRecvs / chCloses count
+// the calls the library makes. The library may rely on nothing beyond the
+// documented one-sender / one-receiver rule, which is what C10 obliges it to
+// respect (the lock-held assertions live at the call sites in package jrpc2).
+//@ ghost chSends(Iface) Int
+//@ ghost chRecvs(Iface) Int
+//@ ghost chCloses(Iface) Int
+//@ iface Channel.Send
+//@   modifies chSends(self)
+//@   ensures chSends(self) == old(chSends(self)) + 1
+//@ iface Channel.Recv
+//@   modifies chRecvs(self)
+//@   ensures chRecvs(self) == old(chRecvs(self)) + 1
+//@   ensures result1 != nil || true
+//@ iface Channel.Close
+//@   modifies chCloses(self)
+//@   ensures chCloses(self) == old(chCloses(self)) + 1
